@@ -54,7 +54,17 @@ func (f *fconv) caseOf(focus string, raws []Raw) ConvCase {
 		ex = append(ex, L(A("expect-codes"), l))
 	}
 	ex = append(ex, f.extra...)
-	return ConvCase{Cfg: f.cfg, Script: f.script, Phases: [][]Raw{raws}, Extra: ex}
+	cfg := f.cfg
+	cfg.Timeouts = nextTimeouts()
+	return ConvCase{Cfg: cfg, Script: f.script, Phases: [][]Raw{raws}, Extra: ex}
+}
+
+// every third generated conversation runs on a server with ReadTimeout/WriteTimeout configured (see Cfg.Timeouts)
+var timeoutsCounter int
+
+func nextTimeouts() bool {
+	timeoutsCounter++
+	return timeoutsCounter%3 == 0
 }
 
 // segStream cuts s into raw reads. mode: 0 one segment (apart from forced
